@@ -22,7 +22,7 @@ def add_routes(cases, rng, k, tier):
         # judged where the injected token is known (library op) and not re-routed
         t = str(c.meta.get("token") or "")
         return "float-rounding" in c.tags or (t[:1] in "-0123456789" and ("." in t or "e" in t.lower()))
-    pool = [c for c in cases if c.runner == "harness" and not floaty(c) and c.line.split(" ")[0] in ("td.hash", "tx.parse", "mn.parse", "path.parse", "sig.parse")]
+    pool = [c for c in cases if c.runner == "harness" and not floaty(c) and c.line.split(" ")[0] in ("td.hash", "tx.parse", "mn.parse", "mn.seed", "path.parse", "sig.parse")]
     if tier == "thorough":
         k *= 4
     out = []
@@ -40,6 +40,11 @@ def add_routes(cases, rng, k, tier):
             out.append(Case("cli.sign_tx %s - default %s 1 0" % (mn, args[0]), tags=tags + ("sign_tx-sigonly",), runner="cli", meta=dict(vf)))
         elif op == "mn.parse" and _argv_safe(args[0]):
             out.append(Case("cli.address %s - default" % args[0], tags=tags + ("address",), runner="cli", meta=dict(vf)))
+        elif op == "mn.seed" and _argv_safe(args[0]) and _argv_safe(args[1] or "-"):
+            # the wallet the commands build from (mnemonic, passphrase): the seed is not printed, the key derived from it is
+            sel = rng.choice(["default", "path:" + hx("m/0'"), "idx:" + hx("3")])
+            out.append(Case("cli.export %s %s %s" % (args[0], args[1] or "-", sel), tags=tags + ("export-password",), runner="cli",
+                            meta={"via": {"mnemonic": rng.choice(["flag", "env"]), "password": rng.choice(["flag", "env"])}}))
         elif op == "path.parse" and _argv_safe(args[0]):
             out.append(Case("cli.address %s - path:%s" % (mn, args[0]), tags=tags + ("address-path",), runner="cli", meta={"via": {"mnemonic": "env", "path": rng.choice(["flag", "env"])}}))
         elif op == "sig.parse" and _argv_safe(args[0]):
